@@ -60,7 +60,7 @@ struct PkgEngine : Engine {
 		return "plan = 1..4 package conversions (EPUB, ODT, TextPack, ITMZ; directory NULL, '/sim/assets' or '/sim/assets/') of small documents with 0..5 images (inline, reference style, repeated URL, same file "
 		       "under two spellings), css metadata, titles with reserved characters, footnotes referenced before/after images, headings - under an environment the simulator owns: per asset path "
 		       "present (1 byte .. 64 KiB, NUL bytes, BOM) / open_fail / read_error after k bytes / empty / directory / content changing between opens; clock anywhere in [1980, 2107] with jumps between two "
-		       "time() calls; libc PRNG state per operation with random footnote/label extensions so that library-side srand interleaves with uuid draws. Oracle: independent ZIP/XML reader (CRC of every member, "
+		       "time() calls (one environment in ten outside that range); libc PRNG state per operation with random footnote/label extensions so that library-side srand interleaves with uuid draws; one package in three rebuilt through the c-string / DString API families; one operation in ten through the command line tool. Oracle: independent ZIP/XML reader (CRC of every member, "
 		       "unique names, required members and order, manifest/container contents), asset table injective and consistent with what each read delivered, main document equal to the plain format rendered "
 		       "in a fresh process under the same environment. Distinct = plan hash; non-trivial = >=1 asset referenced and >=1 environment perturbation fired.";
 	}
